@@ -3,6 +3,7 @@ package rel
 import (
 	"fmt"
 	"runtime"
+	"runtime/debug"
 	"strings"
 
 	age "github.com/craterdog/go-collection-framework/v4/agent"
@@ -62,6 +63,10 @@ func newHolder(kind string, siblings int) *holder {
 			m.SetValue(fmt.Sprint("k", i), sib(i))
 		}
 		h.val, h.put = m, func(v any) { m.SetValue("self", v) }
+	case "association":
+		// an association reaches its value through a getter, not through an array view
+		a := col.Association[string, any](notation).Make("k", nil)
+		h.val, h.put = a, func(v any) { a.SetValue(v) }
 	case "slice":
 		s := make([]any, siblings+1)
 		for i := 0; i < siblings; i++ {
@@ -78,7 +83,7 @@ func newHolder(kind string, siblings int) *holder {
 	return h
 }
 
-var CyclicKinds = []string{"list", "array", "stack", "queue", "catalog", "map", "slice", "gomap"}
+var CyclicKinds = []string{"list", "array", "stack", "queue", "catalog", "map", "slice", "gomap", "association"}
 
 // buildCycle links `length` holders into a ring and returns the first.
 func buildCycle(kinds []string, siblings int) any {
@@ -197,23 +202,24 @@ func shallowBattery(coll age.CollatorLike[any], maximum int) string {
 	return d
 }
 
-// CyclicCases: kinds^length for length 1..3 would be 8+64+512; the battery
+// CyclicCases: kinds^length for length 1..3 would be 9+81+729; the battery
 // enumerates all rings of length 1 and 2 and a seeded sample of length 3,
 // each with 0, 1 and 3 siblings.
-func CyclicCases() int { return (8 + 64 + 64) * 3 }
+func CyclicCases() int { return (9 + 81 + 64) * 3 }
 
 func RunCyclic(c *core.Ctx, idx int) {
 	sib := []int{0, 1, 3}[idx%3]
 	k := idx / 3
 	var kinds []string
+	nk := len(CyclicKinds)
 	switch {
-	case k < 8:
+	case k < nk:
 		kinds = []string{CyclicKinds[k]}
-	case k < 72:
-		k -= 8
-		kinds = []string{CyclicKinds[k/8], CyclicKinds[k%8]}
+	case k < nk+nk*nk:
+		k -= nk
+		kinds = []string{CyclicKinds[k/nk], CyclicKinds[k%nk]}
 	default:
-		kinds = []string{CyclicKinds[c.Rng.Intn(8)], CyclicKinds[c.Rng.Intn(8)], CyclicKinds[c.Rng.Intn(8)]}
+		kinds = []string{CyclicKinds[c.Rng.Intn(nk)], CyclicKinds[c.Rng.Intn(nk)], CyclicKinds[c.Rng.Intn(nk)]}
 	}
 	cs := map[string]any{"ring": kinds, "siblings": sib}
 	sig := fmt.Sprintf("cyclic/len%d", len(kinds))
@@ -296,4 +302,32 @@ func ReproDepthStuck() (bool, string) {
 		return true, "after comparing a self-containing list (depth-limit panic) " + d
 	}
 	return false, "the collator works after the depth-limit panic"
+}
+
+// ReproSelfAssociation: comparing and ranking an association whose value is
+// the association itself (the reproducer runs in a child process: the
+// original defect was a fatal stack overflow).
+func ReproSelfAssociation() (bool, string) {
+	debug.SetMaxStack(64 << 20)
+	a := col.Association[string, any](notation).Make("k", nil)
+	a.SetValue(a)
+	b := col.Association[string, any](notation).Make("k", nil)
+	b.SetValue(b)
+	coll := age.Collator[any]().Make()
+	for _, step := range []struct {
+		what string
+		f    func()
+	}{
+		{"CompareValues(a,a)", func() { coll.CompareValues(a, a) }},
+		{"CompareValues(a,b)", func() { coll.CompareValues(a, b) }},
+		{"RankValues(a,b)", func() { coll.RankValues(a, b) }},
+	} {
+		if d := expectDepthPanic(step.what, step.f); d != "" {
+			return true, "self-containing association: " + d
+		}
+	}
+	if d := acyclicBattery(coll); d != "" {
+		return true, "after the depth-limit panic on a self-containing association: " + d
+	}
+	return false, "a self-containing association ends with the depth-limit panic and the collator works afterwards"
 }
